@@ -234,6 +234,13 @@ example :
     ((processAll s {} cs).1.ops.map (·.frees)) = [1, 0] ∧
     (cs.filter (fun c => addressed 0 c && !fMore c.flags)).length = 1 := by decide
 
+/-- `C06_batch_reclaims_by_own_final` for `drainCq`, the function the `life` driver runs. -/
+theorem C06_drain_reclaims_by_own_final (s : Sys) (a : Acc) (i : Nat) (o : Op)
+    (ho : s.ops[i]? = some o) (hd : o.status = .dropped) :
+    ∃ o', (s.drainCq a).1.ops[i]? = some o' ∧ o'.status = .dropped ∧
+      o'.frees = o.frees + (s.cq.filter (fun c => addressed i c && !fMore c.flags)).length ∧
+      o'.resDrops = o.resDrops + (s.cq.filter (fun c => addressed i c && !fMore c.flags)).length := by
+  rw [drainCq_ops]; exact C06_batch_reclaims_by_own_final s.cq s a i o ho hd
 end A10.Life
 
 /-! ### The cancel request under contention
